@@ -88,6 +88,19 @@ def _container_kind(tree: ast.Module, fn: ast.AST, target: ast.expr):
             p_ = getattr(p_, "_parent", None)
         return None
     if isinstance(target, ast.Attribute) and isinstance(target.value, ast.Name) and target.value.id == "self":
+        # a container defined at CLASS level and never re-bound per object is shared by all objects of the class
+        c_ = getattr(fn, "_parent", None)
+        while c_ is not None and not isinstance(c_, ast.ClassDef):
+            c_ = getattr(c_, "_parent", None)
+        if c_ is not None:
+            cls_level = any(isinstance(n, ast.Assign) and len(n.targets) == 1 and isinstance(n.targets[0], ast.Name) and n.targets[0].id == target.attr and
+                            (isinstance(n.value, (ast.Dict, ast.List, ast.Set)) or
+                             (isinstance(n.value, ast.Call) and isinstance(n.value.func, ast.Name) and n.value.func.id in ("dict", "list", "set", "defaultdict", "OrderedDict")))
+                            for n in c_.body)
+            rebound = any(isinstance(a_, ast.Assign) and any(isinstance(t_, ast.Attribute) and t_.attr == target.attr and isinstance(t_.value, ast.Name) and
+                                                              t_.value.id == "self" for t_ in a_.targets) for a_ in ast.walk(c_))
+            if cls_level and not rebound:
+                return "module"
         return "self"
     if isinstance(target, ast.Attribute) and isinstance(target.value, ast.Name) and target.value.id not in ("self",):
         return None
@@ -249,6 +262,10 @@ def analyse_tree(tree: ast.Module, relpath: str):
                                                     "is computed from: different inputs of the same size share one entry"))
             if kind == "module":
                 sa = _self_attrs(val) | {a for nm in _names(val) for d in local_defs.get(nm, []) for a in _self_attrs(d)}
+                # control dependences and definitions reached through val_names (computed above) may read object state too
+                for nm in val_names:
+                    for d in local_defs.get(nm, []):
+                        sa |= _self_attrs(d)
                 ka = _self_attrs(key) | {a for nm in _names(key) for d in local_defs.get(nm, []) for a in _self_attrs(d)}
                 if (sa - ka) and not lossy:
                     problems.append(("state", where, n, f"module-level cache `{src(t.value)}` stores a value computed from object state "
